@@ -3,7 +3,7 @@
    snapshot the model was reviewed against):
      _strip_koreo_directives  857-870      strip
      _prepare_for_api         841-854      prepare_for_api
-     _extract_last_applied    822-838      extract_last_applied_r (faithful), extract_last_applied
+     _extract_last_applied    822-838      extract_last_applied_r (faithful), extract_last_applied   [69b5a7d]
      _updated_owner_refs      742-780      updated_owner_refs_r   (faithful), updated_owner_refs
      _validate_owner_reffed   783-819      validate_owner_reffed_r (faithful), validate_owner_reffed
    their two call sites
@@ -186,17 +186,20 @@ Definition annotation_of (j : json) : option json :=
   | _ => None
   end.
 
-(* _extract_last_applied(resource).
+(* _extract_last_applied(resource)   (as repaired by /repo commit 69b5a7d)
      if not resource: return None
-     metadata = resource.get("metadata");       if not metadata: return None
-     annotations = metadata.get("annotations"); if not annotations: return None
+     metadata = resource.get("metadata")
+     if not metadata or not isinstance(metadata, dict): return None
+     annotations = metadata.get("annotations")
+     if not annotations or not isinstance(annotations, dict): return None
      last_applied = annotations.get(KEY);       if not last_applied: return None
      return json.loads(last_applied)
-   `.get` on a truthy non-dict raises AttributeError; json.loads of a non-str
-   raises TypeError, of a str that is not JSON raises JSONDecodeError.
-   json.loads itself is not modelled: [ann] is what it returns on the stored
-   text ([None] = the text does not parse).  The Python result None is [None]
-   (so the text "null" gives [None] too). *)
+   `resource.get` on a truthy non-dict live object raises AttributeError; a
+   truthy non-dict metadata / annotations now reads as "no last-applied";
+   json.loads of a non-str raises TypeError, of a str that is not JSON raises
+   JSONDecodeError.  json.loads itself is not modelled: [ann] is what it
+   returns on the stored text ([None] = the text does not parse).  The Python
+   result None is [None] (so the text "null" gives [None] too). *)
 Definition get_r (k : string) (j : json) : res (option json) :=
   match j with
   | JMap kvs => Done (lookup k kvs)
@@ -206,22 +209,26 @@ Definition get_r (k : string) (j : json) : res (option json) :=
 Definition opt_truthy (o : option json) : bool :=
   match o with Some v => py_truthy v | None => false end.
 
+(* `x.get(k)` guarded by `if not x or not isinstance(x, dict): return None`:
+   [None] = the guard returned *)
+Definition guarded_get (k : string) (x : json) : option (option json) :=
+  match x with
+  | JMap kvs => if py_truthy x then Some (lookup k kvs) else None
+  | _ => None
+  end.
+
 Definition extract_last_applied_r (live : json) (ann : option json) : res (option json) :=
   if negb (py_truthy live) then Done None else
   bind (get_r "metadata" live) (fun md =>
   match md with
   | None => Done None
   | Some md =>
-  if negb (py_truthy md) then Done None else
-  bind (get_r "annotations" md) (fun an =>
-  match an with
-  | None => Done None
-  | Some an =>
-  if negb (py_truthy an) then Done None else
-  bind (get_r last_applied_key an) (fun la =>
-  match la with
-  | None => Done None
-  | Some la =>
+  match guarded_get "annotations" md with
+  | None | Some None => Done None
+  | Some (Some an) =>
+  match guarded_get last_applied_key an with
+  | None | Some None => Done None
+  | Some (Some la) =>
   if negb (py_truthy la) then Done None else
   match la with
   | JStr _ =>
@@ -231,7 +238,7 @@ Definition extract_last_applied_r (live : json) (ann : option json) : res (optio
       | None => Raised ExValueError
       end
   | _ => Raised ExTypeError
-  end end) end) end).
+  end end end end).
 
 (* exception-free view (stable type): every raising case reads as "no
    last-applied".  Agrees with [extract_last_applied_r] whenever that is Done. *)
